@@ -25,6 +25,9 @@ ASSUMPTIONS = [
 ]
 
 
+_TMP = None
+
+
 def nontrivial(refs):
     for k in ('dfa', 'nfa', 'dfa1'):
         if k in refs:
@@ -44,7 +47,13 @@ def check_case(rec, case):
     import random
     mk = env.make_notebook_module()
     rng = random.Random(case['iseed'])
-    tmpdir = tempfile.mkdtemp(prefix='vt_c13_')
+    # ONE directory and the same file names for all instances of this interpreter: the reference files are
+    # rewritten in place, as when a user edits an input file and regenerates (anything cached under the file
+    # NAME would serve the previous object)
+    global _TMP
+    if _TMP is None:
+        _TMP = tempfile.mkdtemp(prefix='vt_c13_')
+    tmpdir = _TMP
     try:
         inst = exercises.make_instance(rng, case['template'], tmpdir, 'i')
         case = dict(case, settings={k: v for k, v in inst['settings'].items() if k not in ('templatefile',)}, refs=jsonable(inst['refs']))
@@ -82,7 +91,7 @@ def check_case(rec, case):
         if nchecks == 0:
             rec.inconc('no check cell found in %s' % case['template'])
     finally:
-        shutil.rmtree(tmpdir, ignore_errors=True)
+        pass
 
 
 def gen_cases(rec, rng, tier):
@@ -100,5 +109,9 @@ def run(rec, rng, tier):
     if rc is not None:
         check_case(rec, {'template': rc['template'], 'iseed': rc['iseed']})
         return
-    for case in gen_cases(rec, rng, tier):
-        check_case(rec, case)
+    try:
+        for case in gen_cases(rec, rng, tier):
+            check_case(rec, case)
+    finally:
+        if _TMP is not None:
+            shutil.rmtree(_TMP, ignore_errors=True)
